@@ -71,7 +71,7 @@ def generate(rng, run, tier):
     if entry in ("flat_file", "flat_frames", "grouped_file", "sink_serialize") and physical == "GRAPHS":
         # these entry points derive the stream class from the data: triples->TRIPLES, quads->QUADS
         physical = "QUADS"
-    stmts, flags, sizes, _ = gen_workload(rng, physical)
+    stmts, flags, sizes, _ = gen_workload(rng, physical, max_n=40 if tier == "quick" else rng.choice([40, 40, 120, 300]))
     mp, mn, md = fit_tables(rng, stmts, [], sizes, physical)
     delimited = True
     logical = rng.choice(TRIPLE_LOGICALS if physical == "TRIPLES" else QUAD_LOGICALS)
